@@ -54,7 +54,9 @@ extract_from_string_locale(Source const &_source, std::locale const &_locale)
   FCPPT_PP_DISABLE_GNU_GCC_WARNING(-Wmaybe-uninitialized)
   fcppt::optional::object<Dest> result{fcppt::io::extract<Dest>(iss)};
 
-  return iss.eof() ? std::move(result) : fcppt::optional::nothing{};
+  // peek() rather than eof(): extracting a single character does not look at what follows it
+  return iss.peek() == istringstream::traits_type::eof() ? std::move(result)
+                                                         : fcppt::optional::nothing{};
   FCPPT_PP_POP_WARNING
 }
 
